@@ -33,6 +33,8 @@ def gen_labels_unique(args):
         Tm = F // H
         for vals in itertools.product(range(L + 1), repeat=F * PX):
             yield {"inp": [list(vals[f * PX:(f + 1) * PX]) for f in range(F)], "multiseg": True, "H": H, "T": Tm}
+            yield {"inp": [list(vals[f * PX:(f + 1) * PX]) for f in range(F)], "multiseg": True, "H": H, "T": Tm,
+                   "noncontig": True}
 
 
 def run_labels_unique(x):
@@ -41,7 +43,11 @@ def run_labels_unique(x):
     F, PX = a.shape
     if x["multiseg"]:
         arr = a.reshape(x["H"], x["T"], 1, PX)
-        out = ensure_unique_labels(arr, multiseg=True).reshape(F, PX)
+        if x.get("noncontig"):
+            # the same values in an array that is not C-contiguous in its first two axes
+            arr = np.swapaxes(np.ascontiguousarray(np.swapaxes(arr, 0, 1)), 0, 1)
+            assert not arr.flags["C_CONTIGUOUS"] or arr.shape[0] == 1 or arr.shape[1] == 1
+        out = np.asarray(ensure_unique_labels(arr, multiseg=True)).reshape(F, PX)
     else:
         arr = a.reshape(F, 1, PX)
         out = ensure_unique_labels(arr).reshape(F, PX)
@@ -115,7 +121,12 @@ def gen_cand_seg(args):
         per_frame.append([list(v) for v in itertools.product(labs, repeat=PX)])
     for combo in itertools.product(*per_frame):
         for D, sx in args["variants"]:
-            yield {"seg": [list(f) for f in combo], "D": D, "sx": sx}
+            seg = [list(f) for f in combo]
+            lm = args.get("labelmap")
+            if lm:
+                # large, non-contiguous label values (products of two labels overflow 16 bits)
+                seg = [[lm[v] for v in f] for f in seg]
+            yield {"seg": seg, "D": D, "sx": sx}
 
 
 def run_cand_seg(x):
@@ -239,7 +250,17 @@ def run_relabel(x):
         nm = {"id": "id", "time": "time", "seg_id": "seg_id", "parent_id": "parent_id"}
         if x["via"] == "dfpos":
             nm["pos"] = ["y", "x"]
-        tr = tracks_from_df(df, segmentation=seg.reshape(T, 1, PX), node_name_map=nm)
+        if x["via"] == "builder":
+            # one builder: prepare() sees ANOTHER array (frames swapped), build() gets the real one
+            from funtracks.import_export.csv._import import CSVTracksBuilder
+            b = CSVTracksBuilder()
+            other = np.ascontiguousarray(seg[::-1]).reshape(T, 1, PX)
+            b.prepare(df, other)
+            b.node_name_map = nm
+            b.edge_name_map = None
+            tr = b.build(df, seg.reshape(T, 1, PX))
+        else:
+            tr = tracks_from_df(df, segmentation=seg.reshape(T, 1, PX), node_name_map=nm)
         x["out"] = [[int(v) for v in row] for row in np.asarray(tr.segmentation).reshape(T, PX)]
         x["gnodes"] = sorted(int(n) for n in tr.graph.nodes)
     return x
@@ -280,13 +301,31 @@ def run_import(x):
     if kind == "int" and none is None:
         par = pd.array([p if p is not None else pd.NA for p in par], dtype="Int64")
     names = {"identity": {"time": "time", "id": "id", "parent_id": "parent_id", "y": "y", "x": "x", "c": "c"},
+             "reindexed": {"time": "time", "id": "id", "parent_id": "parent_id", "y": "y", "x": "x", "c": "c"},
              "renamed": {"time": "t", "id": "ident", "parent_id": "par", "y": "Y", "x": "X", "c": "my_custom"}}[x["mapkind"]]
     df = pd.DataFrame({names["time"]: x["time"], names["id"]: ids, names["parent_id"]: par,
                        names["y"]: [float(10 * r + 1) for r in range(1, R + 1)],
                        names["x"]: [float(10 * r + 2) for r in range(1, R + 1)],
                        names["c"]: [100 + r for r in range(1, R + 1)]})
+    if x["mapkind"] == "reindexed":
+        df.index = list(reversed(range(R)))          # a DataFrame that was sorted / filtered before
     nm = {"time": names["time"], "id": names["id"], "parent_id": names["parent_id"],
           "pos": [names["y"], names["x"]], "custom": names["c"]}
+    # a source track-id column (labels 40 + first row of the unbranched segment) on well-formed, time-forward tables
+    x["tidcol"] = 0
+    idn, parr = x["idn"], x["par"]
+    wf = len(set(idn)) == R and all(p == 0 or (p in idn and p != i) for p, i in zip(parr, idn))
+    if wf and all(p == 0 or x["time"][idn.index(p)] < x["time"][r] for r, p in enumerate(parr)):
+        kids = {k: [r for r in range(R) if parr[r] == k] for k in idn}
+        seg = {k: {k} for k in idn}
+        for r in range(R):
+            if parr[r] != 0 and len(kids[parr[r]]) == 1:
+                merged = seg[parr[r]] | seg[idn[r]]
+                for k in merged:
+                    seg[k] = merged
+        df["trk"] = [40 + min(idn.index(k) for k in seg[idn[r]]) + 1 for r in range(R)]
+        nm["track_id"] = "trk"
+        x["tidcol"] = 1
     if x["drop"] in ("time", "id", "parent_id", "pos"):
         del nm[x["drop"]]
     elif x["drop"] == "badcol":
@@ -295,7 +334,7 @@ def run_import(x):
         tr = tracks_from_df(df, node_name_map=nm)
     except ValueError:
         x["err"] = "ValueError"
-        x["nodes"], x["edges"] = [], []
+        x["nodes"], x["edges"], x["tids"] = [], [], []
         return x
     g = tr.graph
     nodes = []
@@ -305,6 +344,7 @@ def run_import(x):
                       int(round(float(pos[1]))) if float(pos[1]).is_integer() else -1,
                       int(a["custom"]) if a.get("custom") is not None else -1])
     x["err"] = "ok"
+    x["tids"] = [[int(n), int(a["track_id"]) if a.get("track_id") is not None else -1] for n, a in g.nodes(data=True)]
     x["nodes"] = nodes
     x["edges"] = [[int(u), int(v)] for u, v in g.edges]
     return x
